@@ -120,3 +120,24 @@ def qubit_diag_element(qop, x):
                     s = -s
             tot += c * s
     return tot
+
+
+def pauli_expect(psi, qop, n):
+    """<psi|H|psi> for a qubit operator on a state vector with bit q of the index = qubit q, without building matrices"""
+    idx = np.arange(2 ** n)
+    tot = 0.0 + 0.0j
+    for w, c in qop.terms.items():
+        phi = psi
+        src = idx.copy()
+        phase = np.ones(2 ** n, dtype=complex)
+        for q, l in w:
+            bit = (idx >> q) & 1
+            if l == "Z":
+                phase = phase * np.where(bit == 1, -1, 1)
+            elif l == "X":
+                src = src ^ (1 << q)
+            else:
+                src = src ^ (1 << q)
+                phase = phase * np.where(bit == 1, 1j, -1j)
+        tot += c * np.vdot(psi, phase * psi[src])
+    return tot
